@@ -372,21 +372,51 @@ func (a *A) ruleSlotStamp(W *types.Named, fn *ssa.Function) {
 							val = TermOf(st.Val, nil)
 						}
 					}
+					// every place the batch leaves the function from (returned, handed to a call, stored, sent) comes
+					// after the scan
 					before := true
-					for _, b := range fn.Blocks {
-						ret, ok := b.Instrs[len(b.Instrs)-1].(*ssa.Return)
-						if !ok {
-							continue
+					isBatchVal := func(v ssa.Value) bool {
+						for _, lf := range phiLeaves(v) {
+							if lf == ssa.Value(c) {
+								return true
+							}
 						}
-						for _, r := range ret.Results {
-							for _, lf := range phiLeaves(r) {
-								if lf == ssa.Value(c) && !l2.Header.Dominates(b) {
-									before = false
+						return false
+					}
+					allInstrs(fn, func(in ssa.Instruction) {
+						if in.Parent() != fn || l.Blocks[in.Block()] || l2.Blocks[in.Block()] || in.Block() == l2.Header || in.Block() == l.Header {
+							return
+						}
+						leaves := false
+						switch x := in.(type) {
+						case *ssa.Return:
+							for _, r := range x.Results {
+								leaves = leaves || isBatchVal(r)
+							}
+						case *ssa.Store:
+							leaves = isBatchVal(x.Val)
+						case *ssa.Send:
+							leaves = isBatchVal(x.X)
+						case *ssa.MapUpdate:
+							leaves = isBatchVal(x.Value)
+						case *ssa.MakeClosure:
+							for _, bnd := range x.Bindings {
+								leaves = leaves || isBatchVal(bnd)
+							}
+						default:
+							if cc := callCommon(in); cc != nil {
+								if _, isBuiltin := cc.Value.(*ssa.Builtin); !isBuiltin {
+									for _, arg := range cc.Args {
+										leaves = leaves || isBatchVal(arg)
+									}
 								}
 							}
 						}
-					}
-					if full && val != nil && before && si.Returned && len(si.PassedTo) == 0 {
+						if leaves && !l2.Header.Dominates(in.Block()) {
+							before = false
+						}
+					})
+					if full && val != nil && before {
 						stamped = val
 					}
 				}
@@ -935,16 +965,27 @@ func (a *A) ruleAdvanceBeforeUnlock(W *types.Named, fn *ssa.Function) {
 			argT := TermOf(c.Call.Args[idx], nil)
 			if argT.Kind == "field" && argT.Field == curF {
 				// the load feeding the argument
-				ld := loadOf(c.Call.Args[idx])
-				if ld == nil {
+				// (the slot may be carried in a loop variable re-read after every firing: each read counts)
+				var lds []ssa.Instruction
+				for _, lf := range phiLeaves(c.Call.Args[idx]) {
+					ld := loadOf(lf)
+					if ld == nil {
+						lds = nil
+						break
+					}
+					lds = append(lds, ld)
+				}
+				if len(lds) == 0 {
 					a.Und(construct, c.Pos(), "cannot find the load of currentSlot feeding %s", callee.Name())
 					n++
 					return
 				}
-				if a.releasesLock(W, callee, 0) {
-					report(ld, "currentSlot is loaded and passed to "+callee.Name()+"(), which releases the lock for delivery", func(x ssa.Instruction) bool { return x == ssa.Instruction(c) })
-				} else {
-					report(ld, "currentSlot is loaded and its rows extracted by "+callee.Name()+"()", isUnlock)
+				for _, ld := range lds {
+					if a.releasesLock(W, callee, 0) {
+						report(ld, "currentSlot is loaded and passed to "+callee.Name()+"(), which releases the lock for delivery", func(x ssa.Instruction) bool { return x == ssa.Instruction(c) })
+					} else {
+						report(ld, "currentSlot is loaded and its rows extracted by "+callee.Name()+"()", isUnlock)
+					}
 				}
 			}
 		}
@@ -1136,6 +1177,15 @@ func (a *A) ruleAdvanceByOne(W *types.Named, initFns map[string]string) {
 				}
 				if a.isJumpBoundedByEveryRow(l, W) {
 					continue
+				}
+				// NextSlot() written out where it was called: the same slot constructor over the same terms
+				// of the same receiver (what NextSlot returns is judged by shape/slot-shape)
+				if st0, en0 := a.slotCtorArgs(next, nil); st0 != nil && en0 != nil && fn.Signature.Recv() != nil && types.Identical(fn.Signature.Recv().Type(), next.Signature.Recv().Type()) {
+					if c, isCall := l.(*ssa.Call); isCall && len(c.Call.Args) == 2 && calleeFull(&c.Call) == "github.com/rulego/streamsql/types.NewTimeSlot" {
+						if TermOf(c.Call.Args[0], nil).String() == st0.String() && TermOf(c.Call.Args[1], nil).String() == en0.String() {
+							continue
+						}
+					}
 				}
 				ok = false
 				badLeaf = TermOf(l, nil).String()
